@@ -350,3 +350,28 @@ fn c08_fromstr_retry() {
         }
     }
 }
+
+// O-C08.field.board at fixed lengths (ASCII bytes): 13 = seven ranks of "8", 15 = eight ranks, 17
+macro_rules! board_fixed {
+    ($($name:ident: $n:expr;)*) => {$(
+        #[kani::proof]
+        #[kani::unwind(20)]
+        fn $name() {
+            let buf: [u8; $n] = kani::any();
+            let mut i = 0;
+            while i < $n { kani::assume(buf[i] < 0x80); i += 1; }
+            let s = core::str::from_utf8(&buf).unwrap();
+            let mut b = empty_board();
+            let r = Board::parse_board(&mut b, s);
+            match ref_board(&buf) {
+                Some((pieces, colors)) => {
+                    assert!(r.is_ok());
+                    let p = pos_of(&b);
+                    assert!(p.pieces == pieces && p.colors == colors);
+                }
+                None => assert!(r.is_err()),
+            }
+        }
+    )*};
+}
+board_fixed! { c08_field_board_len13: 13; c08_field_board_len15: 15; c08_field_board_len16: 16; }
